@@ -624,6 +624,8 @@ class Interp:
     def ev_Power(self, e, s):
         a, b = e.ufl_operands
         va, vb = self.val(a, s), self.val(b, s)
+        if self.env(s).cplx and not np.iscomplexobj(va):
+            va = va.astype(complex)
         if vb.shape[1:] != () and vb.shape[1:] != va.shape[1:]:
             raise Unsupported("power with free indices in the exponent")
         with np.errstate(all="ignore"):
@@ -660,6 +662,8 @@ class Interp:
 
     def ev_MathFunction(self, e, s):
         a = self.val(e.ufl_operands[0], s)
+        if self.env(s).cplx and not np.iscomplexobj(a):
+            a = a.astype(complex)  # complex mode: sqrt/ln/acos/asin leave the reals outside their real domain
         name = type(e).__name__
         with np.errstate(all="ignore"):
             return self.js.compose(a, jt.unary_table(name))
